@@ -2038,6 +2038,7 @@ class Workflow(Trellis):
             vol_paths=vol_paths,
         )
         if old_step is not None:
+            self._raise_if_recycled_products_conflict(old_step)
             # Look for UNCONFIRMED inputs that match a static tree.
             # Their existence still needs to be checked,
             # ideally confirmed by a hash job submitted for them.
@@ -2096,6 +2097,62 @@ class Workflow(Trellis):
 
         logger.info("Define step: %s", step.label)
         return self._hashes_to_check(unconfirmed)
+
+    def _raise_if_recycled_products_conflict(self, step: Step) -> None:
+        """Validate the products that a fully recycled step brings back.
+
+        A fully recycled step revives everything it (recursively) created,
+        without declaring any of it again.
+        While these products were detached, other creators could declare conflicting paths,
+        because the ownership checks deliberately ignore detached nodes.
+        The same checks are therefore repeated here for the revived static trees and files,
+        so that a static tree remains the sole owner of the paths under it,
+        whichever of the two conflicting declarations comes back first.
+
+        Raises
+        ------
+        GraphError
+            When a revived static tree contains a file of another owner or overlaps with
+            another static tree, or when a revived file lies under a static tree of another owner.
+        """
+        sql = """
+        WITH RECURSIVE revived(i) AS (
+            SELECT i FROM node WHERE creator = ?
+            UNION ALL
+            SELECT node.i FROM node JOIN revived ON node.creator = revived.i
+        )
+        SELECT node.i, node.kind, node.label, node.creator FROM node JOIN revived USING (i)
+        WHERE NOT node.detached AND node.kind IN ('st', 'file') ORDER BY node.kind DESC, node.label
+        """
+        for node_i, kind, label, creator_i in self.db.execute(sql, (step.i,)).fetchall():
+            if kind == "st":
+                clause, pattern = prefix_clause("node.label", label)
+                sql_trees = (
+                    "SELECT label FROM node WHERE kind = 'st' AND NOT detached AND i != ? AND "
+                    f"({clause} OR label = substr(?, 1, length(label)))"
+                )
+                row = self.db.execute(sql_trees, (node_i, pattern, label)).fetchone()
+                if row is not None:
+                    raise GraphError(f"Static trees overlap: {label} and {row[0]}")
+                sql_files = (
+                    "SELECT node.label, file.state FROM node JOIN file ON node.i = file.node "
+                    f"WHERE NOT node.detached AND {clause} AND node.creator != ? "
+                    "ORDER BY node.label"
+                )
+                row = self.db.execute(sql_files, (pattern, node_i)).fetchone()
+                if row is not None:
+                    if row[1] in FILE_STATES_BY_ROLE[FileRole.STATIC]:
+                        raise GraphError(_static_tree_file_message(label, row[0]))
+                    raise GraphError(_static_tree_product_message(label, row[0]))
+            else:
+                static_tree = self._find_owning_static_tree(label)
+                if static_tree is not None and static_tree.i != creator_i:
+                    state = self.db.execute(
+                        "SELECT state FROM file WHERE node = ?", (node_i,)
+                    ).fetchone()[0]
+                    if state in FILE_STATES_BY_ROLE[FileRole.STATIC]:
+                        raise GraphError(_static_tree_file_message(static_tree.label, label))
+                    raise GraphError(_static_tree_product_message(static_tree.label, label))
 
     def amend_step(
         self,
